@@ -325,6 +325,23 @@ func validatorSetRoles(c *Ctx) {
 			c.Check("F", fnName(fn)+"/new state's "+f+" shifts from the right set", ok, fn.Pos(), 1, strings.Join(got[f], ";"))
 		}
 	}
+	// a reloaded state takes each set from the record named by the like-named hash, and the saved state names each record by
+	// the like-named set
+	if load := c.Fn("kai/state/cstate", "", "loadStateAtHeight"); load != nil {
+		rec := func(h string) string {
+			return `^call:types\.ValidatorSetFromProto\(call:kai/rawdb\.ReadConsensusValidatorsInfo\(db, call:lib/common\.BytesToHash\(call:kai/rawdb\.ReadConsensusStateHeight\(db, height\)\.` + h + `\)\)\.ValidatorSet\)#0$`
+		}
+		got := map[string]string{}
+		for _, in := range findInstrs(load, StoreTo(`^&call:kai/state/cstate\.StateFromProto\(.*\)#0\.`)) {
+			st := in.(*ssa.Store)
+			f := pathOf(st.Addr)
+			got[f[strings.LastIndex(f, ".")+1:]] = pathOf(st.Val)
+		}
+		for _, f := range []string{"LastValidators", "Validators", "NextValidators"} {
+			h := f + "InfoHash"
+			c.Check("F", fnName(load)+"/"+f+" is loaded from the record named by "+h, re(rec(h)).MatchString(got[f]), load.Pos(), 1, f+" = "+clip(got[f], 220))
+		}
+	}
 	if fn := c.Fn("consensus", "ConsensusState", "reconstructLastCommit"); fn != nil {
 		n := 0
 		for _, in := range findInstrs(fn, CallTo(`^types\.CommitToVoteSet$`, "")) {
